@@ -26,6 +26,8 @@ import (
 	"github.com/openconfig/gnmi/client"
 	gclient "github.com/openconfig/gnmi/client/gnmi"
 	"github.com/openconfig/gnmi/ctree"
+	"github.com/openconfig/gnmi/latency"
+	gmeta "github.com/openconfig/gnmi/metadata"
 	pb "github.com/openconfig/gnmi/proto/gnmi"
 	"github.com/openconfig/gnmi/zzverif/seqmc"
 )
@@ -378,6 +380,84 @@ func specIngest(name string, hist [][]int, g []msg) seqmc.Spec {
 	}}
 }
 
+// specMetaRegistry: a remote peer writes a value of every kind to EVERY metadata
+// path the collector maintains - taken from the registry of package metadata
+// after a cache with latency windows was built, so statistics that are
+// registered under one name and stored under another path are included - and
+// then the collector lives on: the target syncs, sends data (a latency is
+// measured), time passes beyond the window, metadata is refreshed twice, the
+// target is reset and refreshed again.
+func specMetaRegistry() seqmc.Spec {
+	type mcase struct {
+		path []string
+		val  string
+	}
+	opt, err := cache.WithLatencyWindows([]string{"2s"}, time.Second)
+	if err != nil {
+		panic(err)
+	}
+	cache.New([]string{"t"}, opt) // registers the latency statistics
+	var names []string
+	for n := range gmeta.TargetIntValues {
+		names = append(names, n)
+	}
+	for n := range gmeta.TargetBoolValues {
+		names = append(names, n)
+	}
+	for n := range gmeta.TargetStrValues {
+		names = append(names, n)
+	}
+	sort.Strings(names)
+	var cases []mcase
+	for _, n := range names {
+		for _, v := range []string{"<nil>", "<empty>", "int1", "str", "bool", "double", "leaflist", "uint"} {
+			cases = append(cases, mcase{gmeta.Path(n), v})
+		}
+	}
+	return seqmc.Spec{Name: fmt.Sprintf("remote writes to every registered metadata path (%d names, latency windows on) x value kinds, then sync / data / refresh / reset", len(names)), N: len(cases), Run: func(i int) (string, bool, []seqmc.Violation) {
+		mc := cases[i]
+		desc := fmt.Sprintf("remote update %s = %s on a collector with latency windows", strings.Join(mc.path, "/"), mc.val)
+		what := func() string { return desc }
+		var vs []seqmc.Violation
+		lnow := time.Unix(100, 0)
+		oldNow := latency.Now
+		latency.Now = func() time.Time { return lnow }
+		defer func() { latency.Now = oldNow }()
+		clock = 0
+		c := cache.New([]string{"t"}, opt)
+		c.SetClient(func(l *ctree.Leaf) { _ = l.Value() })
+		n := &pb.Notification{Timestamp: 1, Prefix: &pb.Path{Target: "t"}, Update: []*pb.Update{{Path: &pb.Path{Elem: elemsOf(mc.path)}, Val: mkv(mc.val)}}}
+		var uerr error
+		guard("Cache.GnmiUpdate", &vs, what, func() { uerr = c.GnmiUpdate(n) })
+		data := func(ts time.Time, v int64) {
+			guard("Cache.GnmiUpdate(data)", &vs, what, func() {
+				c.GnmiUpdate(&pb.Notification{Timestamp: ts.UnixNano(), Prefix: &pb.Path{Target: "t"}, Update: []*pb.Update{{Path: &pb.Path{Elem: elems("a")}, Val: &pb.TypedValue{Value: &pb.TypedValue_IntVal{IntVal: v}}}}})
+			})
+		}
+		guard("Cache.Sync", &vs, what, func() { c.Sync("t") })
+		data(lnow.Add(-5*time.Millisecond), 1)
+		for k := 0; k < 3; k++ {
+			lnow = lnow.Add(1500 * time.Millisecond)
+			data(lnow.Add(-7*time.Millisecond), int64(2+k))
+			guard("Cache.UpdateMetadata", &vs, what, func() { c.UpdateMetadata() })
+			guard("Cache.UpdateSize", &vs, what, func() { c.UpdateSize() })
+		}
+		guard("Cache.Query", &vs, what, func() { snapshot(c, true) })
+		guard("Cache.Reset", &vs, what, func() { c.Reset("t") })
+		lnow = lnow.Add(3 * time.Second)
+		guard("Cache.UpdateMetadata", &vs, what, func() { c.UpdateMetadata() })
+		return desc, uerr != nil, vs
+	}}
+}
+
+func elemsOf(p []string) []*pb.PathElem {
+	var out []*pb.PathElem
+	for _, e := range p {
+		out = append(out, &pb.PathElem{Name: e})
+	}
+	return out
+}
+
 // ---------------------------------------------------------------- client receive + CLI display
 
 type respSpec struct {
@@ -547,12 +627,14 @@ func (harness) Specs(tier string) []seqmc.Spec {
 		return []seqmc.Spec{
 			specIngest("ingest, full grammar", states(1), grammar(true)),
 			specIngest("ingest, single-part grammar", states(2), grammar(false)),
+			specMetaRegistry(),
 			specDisplay(2),
 		}
 	}
 	return []seqmc.Spec{
 		specIngest("ingest, full grammar", [][]int{{}, {0}, {1}, {3}, {6}, {10}}, grammar(true)),
 		specIngest("ingest, single-part grammar", states(2), grammar(false)),
+		specMetaRegistry(),
 		specDisplay(2),
 	}
 }
